@@ -375,7 +375,8 @@ def scaled_inputs():
         ("duplicate-keys", lambda n: "===D===\n" + "K::v\n" * n + "===END===\n"),
         ("multiword", lambda n: "===D===\nK::" + " ".join("w" for _ in range(n)) + "\n===END===\n"),
         ("zone-lines", lambda n: "===D===\nK::\n```\n" + "line\n" * n + "```\n===END===\n"),
-        ("unterminated-quotes", lambda n: "===D===\n" + 'K::"a\n' * n + "===END===\n"),
+        # distinct keys: with one repeated key this family measured the duplicate-key receipts (the known finding), not quotes
+        ("unterminated-quotes", lambda n: "===D===\n" + "".join(f'K{i}::"a\n' for i in range(n)) + "===END===\n"),
         ("garbage", lambda n: "%^&" * n),
     ]
 
